@@ -24,7 +24,7 @@ func TestVerifC04Daedns(t *testing.T) {
 	log := logrus.New()
 	log.SetOutput(io.Discard)
 	r := vk.NewRand(0xC04D)
-	gen := &vk.DGen{R: r, Internal: true, RichInternal: true}
+	gen := &vk.DGen{R: r, Internal: true, RichInternal: true, LongReq: 8}
 	nprog := vk.Scale(400, 10000)
 	for i := 0; i < nprog && m.Violations() < 5; i++ {
 		p := gen.Gen()
